@@ -84,21 +84,20 @@ def _is_budget(reason):
 def check(obl, axioms=(), timeout_ms=10000, want_smt2=False):
     """Budgets are z3 RESOURCE limits (rlimit: a deterministic count of solver steps), not seconds, so that verdicts do not depend on
     how busy the machine is; wall-clock limits are only a generous backstop (z3 does not always honour its own timeout, hence the
-    hard kill).  R = timeout_ms * 3000 steps (about timeout_ms of solver time on this machine when idle).
-      A  E-matching only (Boogie/Dafny style; never answers sat), budget R/4  - almost every proof is found here in well under a second
+    hard kill).  R = timeout_ms * 2500 steps (about timeout_ms of solver time on this machine when idle).
+      A  E-matching only (Boogie/Dafny style; never answers sat), budget R/2  - almost every proof is found here in well under a second
       B  model-based quantifier instantiation (can also answer sat),  budget R
-      C  E-matching only, budget R  (only if A stopped at its budget)
       D  E-matching only in two fresh contexts with other seeds, budget R/2 each (only a proof is accepted from a retry)"""
     t0 = time.time()
     retried = 0
-    R = int(timeout_ms) * 3000
+    R = int(timeout_ms) * 2500
     wall_ms = int(timeout_ms) * 6
     hard = wall_ms / 1000.0 + 5
     if obl.expect_sat:
         s = _mk(obl, axioms, min(timeout_ms, 3000), False)
         r, reason, model = _hard_check(s, 8, False)
     else:
-        s = _mk(obl, axioms, wall_ms, True, rlimit=R // 4)
+        s = _mk(obl, axioms, wall_ms, True, rlimit=R // 2)
         r, reason, model = _hard_check(s, hard, True)
         if r != "unsat":
             r1, reason1, model1, s1 = r, reason, model, s
@@ -109,18 +108,13 @@ def check(obl, axioms=(), timeout_ms=10000, want_smt2=False):
                 # saturation verdict of pass A
                 r, reason, model, s = r1, reason1, model1, s1
             elif r == "unknown" and _is_budget(reason) and _is_budget(reason1):
-                s3 = _mk(obl, axioms, wall_ms, True, rlimit=R)
-                r3, reason3, model3 = _hard_check(s3, hard, True)
-                if r3 == "unsat" or (r3 == "unknown" and not _is_budget(reason3)):
-                    r, reason, model, s = r3, reason3, model3, s3
-                else:
-                    for variant in (1, 2):
-                        s2 = _mk(obl, axioms, wall_ms, True, variant=variant, rlimit=R // 2)
-                        r2, reason2, _ = _hard_check(s2, hard, False)
-                        if r2 == "unsat":
-                            r, reason, model = r2, reason2, None
-                            retried = variant
-                            break
+                for variant in (1, 2):
+                    s2 = _mk(obl, axioms, wall_ms, True, variant=variant, rlimit=R // 2)
+                    r2, reason2, _ = _hard_check(s2, hard, False)
+                    if r2 == "unsat":
+                        r, reason, model = r2, reason2, None
+                        retried = variant
+                        break
     dt = time.time() - t0
     out = {"name": obl.name, "kind": obl.kind, "line": obl.line, "seconds": round(dt, 3), "solver": "z3-5.1.0(api)"}
     if retried:
